@@ -554,7 +554,7 @@ def audit_clauses() -> list[tuple[str, str, list[str], str, int, int]]:
 # emit
 
 
-def render(errs: list[tuple[str, str, bool]], bis: list[tuple[str, str | None]], tables: dict[str, list[str]], flags: dict[str, bool], audit: list[tuple[str, str, list[str], str, int, int]]) -> str:
+def render(errs: list[tuple[str, str, bool]], bis: list[tuple[str, str | None]], tables: dict[str, list[str]], flags: dict[str, bool], audit: list[tuple[str, str, list[str], str, int, int]], req: dict[str, str]) -> str:
 	L: list[str] = []
 	L.append('/-')
 	L.append('  GENERATED by verif/translate/gen_errors.py — do not edit.')
@@ -635,6 +635,24 @@ def render(errs: list[tuple[str, str, bool]], bis: list[tuple[str, str | None]],
 	for name in ['interactiveInnerCatch', 'interactiveOuterCatch', 'modulesLoadRollbackCatch', 'mainCatch']:
 		L.append(f'def {name} : List Atom := [' + ', '.join(tables[name]) + ']')
 	L.append('')
+	L.append('/-! ### the request boundary of the interactive mode (bin/io.py `tty`, the `if …: break` of Interactive.run) -/')
+	L.append('')
+	L.append('/-- boolean expressions over the request `lines` (a list of lines) as they occur in the quit test of Interactive.run -/')
+	L.append('inductive ReqTest')
+	L.append('  | lenEq (n : Nat)                       -- len(lines) == n')
+	L.append('  | itemEq (i : Int) (s : List Char)      -- lines[i] == s     (raises IndexError outside the list)')
+	L.append('  | nonEmpty                              -- lines             (truth value of a list)')
+	L.append('  | not (a : ReqTest)')
+	L.append('  | and (a b : ReqTest)                   -- short-circuit, left to right')
+	L.append('  | or (a b : ReqTest)')
+	L.append('  deriving Repr')
+	L.append('')
+	L.append('/-- bin/transpile.py Interactive.run: `if <test>: break` right after `lines = tty(prompt)` -/')
+	L.append(f"def interactiveQuitTest : ReqTest := {req['interactiveQuitTest']}")
+	L.append('/-- bin/io.py tty: `elif line == <ttyQuitLine>: return <ttyQuitResult>` -/')
+	L.append(f"def ttyQuitLine : List Char := {req['ttyQuitLine']}")
+	L.append(f"def ttyQuitResult : List (List Char) := {req['ttyQuitResult']}")
+	L.append('')
 	L.append('/-! ### audit: every `except` clause of rogw/tranp (without compatible/, test/ and the stand-alone tools bin/*_check.py, bin/analyze.py) -/')
 	L.append('')
 	sites: list[str] = []
@@ -695,6 +713,107 @@ def render(errs: list[tuple[str, str, bool]], bis: list[tuple[str, str | None]],
 	return '\n'.join(L) + '\n'
 
 
+# ---------------------------------------------------------------------------------------------
+# the request boundary of the interactive mode: bin/io.py `tty` and the `if …: break` test of Interactive.run
+
+
+def _lean_chars(text: str) -> str:
+	def one(c: str) -> str:
+		if c in ("'", '\\'):
+			return "'\\" + c + "'"
+		if c == '\n':
+			return "'\\n'"
+		if c == '\t':
+			return "'\\t'"
+		if not (32 <= ord(c) < 127):
+			return f'(Char.ofNat {ord(c)})'
+		return f"'{c}'"
+	return '[' + ', '.join(one(c) for c in text) + ']'
+
+
+def _req_test(e: ast.expr, var: str) -> str:
+	"""a boolean expression over the request list `var` → a `ReqTest` term (anything outside the small language is a broken tie)"""
+	if isinstance(e, ast.BoolOp) and isinstance(e.op, (ast.And, ast.Or)):
+		ctor = 'and' if isinstance(e.op, ast.And) else 'or'
+		terms = [_req_test(v, var) for v in e.values]
+		out = terms[-1]
+		for t in reversed(terms[:-1]):
+			out = f'.{ctor} ({t}) ({out})'
+		return out
+	if isinstance(e, ast.UnaryOp) and isinstance(e.op, ast.Not):
+		return f'.not ({_req_test(e.operand, var)})'
+	if isinstance(e, ast.Name) and e.id == var:
+		return '.nonEmpty'
+	if isinstance(e, ast.Compare) and len(e.ops) == 1 and isinstance(e.ops[0], (ast.Eq, ast.NotEq)) and isinstance(e.comparators[0], ast.Constant):
+		left, k = e.left, e.comparators[0].value
+		term = None
+		if isinstance(left, ast.Call) and ast.unparse(left) == f'len({var})' and type(k) is int and k >= 0:
+			term = f'.lenEq {k}'
+		elif isinstance(left, ast.Subscript) and isinstance(left.value, ast.Name) and left.value.id == var and type(k) is str:
+			idx = left.slice
+			if isinstance(idx, ast.UnaryOp) and isinstance(idx.op, ast.USub) and isinstance(idx.operand, ast.Constant) and type(idx.operand.value) is int:
+				term = f'.itemEq ({-idx.operand.value}) {_lean_chars(k)}'
+			elif isinstance(idx, ast.Constant) and type(idx.value) is int:
+				term = f'.itemEq {idx.value} {_lean_chars(k)}'
+		if term is not None:
+			return term if isinstance(e.ops[0], ast.Eq) else f'.not ({term})'
+	raise TranslateError(f'Interactive.run: the quit test contains `{ast.unparse(e)}`, which is outside the modelled request-test language')
+
+
+def request_tables() -> dict[str, str]:
+	"""`lines = tty(prompt)` / `if <test>: break` at the head of the loop body of Interactive.run, and the body of bin/io.py `tty`."""
+	with open(os.path.join(REPO, 'rogw/tranp/bin/transpile.py'), encoding='utf-8') as f:
+		tree = ast.parse(f.read())
+	imp = [ast.unparse(x) for x in tree.body if isinstance(x, ast.ImportFrom) and any(a.name == 'tty' or a.asname == 'tty' for a in x.names)]
+	if imp != ['from rogw.tranp.bin.io import tty']:
+		raise TranslateError(f'bin/transpile.py: `tty` is not imported from rogw.tranp.bin.io: {imp}')
+	fn = _find_func(tree, 'Interactive', 'run')
+	loop = [s for t in fn.body if isinstance(t, ast.Try) for s in t.body if isinstance(s, ast.While)]
+	if len(loop) != 1:
+		raise TranslateError('Interactive.run: `while True` not found')
+	head = []
+	for st in loop[0].body:
+		if isinstance(st, ast.Try):
+			break
+		head.append(st)
+	rest = loop[0].body[len(head):]
+	if len(rest) != 1 or loop[0].orelse:
+		raise TranslateError('Interactive.run: statements after the inner try (or a while/else)')
+	if len(head) != 3 or not (isinstance(head[0], ast.Assign) and ast.unparse(head[0].targets[0]) == 'prompt' and all(isinstance(n, (ast.Constant, ast.List, ast.Attribute, ast.Call, ast.Load, ast.Name)) for n in ast.walk(head[0].value)) and ast.unparse(head[0].value).startswith("'\\n'.join([")) \
+			or ast.unparse(head[1]) != 'lines = tty(prompt)' or not (isinstance(head[2], ast.If) and not head[2].orelse and len(head[2].body) == 1 and isinstance(head[2].body[0], ast.Break)):
+		raise TranslateError(f'Interactive.run: unrecognised head of the loop body {[ast.unparse(x) for x in head]}')
+	test = _req_test(head[2].test, 'lines')
+	with open(os.path.join(REPO, 'rogw/tranp/bin/io.py'), encoding='utf-8') as f:
+		io_tree = ast.parse(f.read())
+	tty = [x for x in io_tree.body if isinstance(x, ast.FunctionDef) and x.name == 'tty']
+	if len(tty) != 1:
+		raise TranslateError('bin/io.py: def tty not found')
+	body = [x for x in tty[0].body if not (isinstance(x, ast.Expr) and isinstance(x.value, ast.Constant))]
+	shape = [ast.unparse(x) for x in body]
+	if len(body) != 4 or shape[0] != 'if prompt:\n    print(prompt)' or shape[1] != 'lines: list[str] = []' or shape[3] != 'return lines' or not isinstance(body[2], ast.While) or ast.unparse(body[2].test) != 'True' or body[2].orelse:
+		raise TranslateError(f'bin/io.py tty: unrecognised body {shape}')
+	w = body[2].body
+	if len(w) != 3 or ast.unparse(w[0]) != 'line = readline()' or ast.unparse(w[2]) != 'lines.append(line)' or not isinstance(w[1], ast.If):
+		raise TranslateError(f'bin/io.py tty: unrecognised loop body {[ast.unparse(x) for x in w]}')
+	br = w[1]
+	if ast.unparse(br.test) != 'not line' or len(br.body) != 1 or not isinstance(br.body[0], ast.Break) or len(br.orelse) != 1 or not isinstance(br.orelse[0], ast.If):
+		raise TranslateError(f'bin/io.py tty: unrecognised end-of-request test `{ast.unparse(br)}`')
+	ex = br.orelse[0]
+	t = ex.test
+	if ex.orelse or not (isinstance(t, ast.Compare) and ast.unparse(t.left) == 'line' and len(t.ops) == 1 and isinstance(t.ops[0], ast.Eq) and isinstance(t.comparators[0], ast.Constant) and type(t.comparators[0].value) is str):
+		raise TranslateError(f'bin/io.py tty: unrecognised quit test `{ast.unparse(ex.test)}`')
+	if len(ex.body) != 1 or not isinstance(ex.body[0], ast.Return) or not isinstance(ex.body[0].value, ast.List) or not all(isinstance(v, ast.Constant) and type(v.value) is str for v in ex.body[0].value.elts):
+		raise TranslateError(f'bin/io.py tty: unrecognised quit branch `{ast.unparse(ex.body[0])}`')
+	rl = [x for x in io_tree.body if isinstance(x, ast.FunctionDef) and x.name == 'readline']
+	if len(rl) != 1 or not isinstance(rl[0].body[-1], ast.Return) or ast.unparse(rl[0].body[-1].value) != "res.stdout.decode('utf-8').rstrip()":
+		raise TranslateError('bin/io.py readline: the result is not `res.stdout.decode(...).rstrip()`')
+	return {
+		'interactiveQuitTest': test,
+		'ttyQuitLine': _lean_chars(t.comparators[0].value),
+		'ttyQuitResult': '[' + ', '.join(_lean_chars(v.value) for v in ex.body[0].value.elts) + ']',
+	}
+
+
 def generate() -> list[dict[str, Any]]:
 	errs = errors_hierarchy()
 	bis = builtin_hierarchy()
@@ -706,7 +825,8 @@ def generate() -> list[dict[str, Any]]:
 	flags = {**render_tables(), **pflags, 'modulesUnloadCascades': unload_shape()}
 	audit = audit_clauses()
 	writer_shape()
-	changed = write_if_changed(OUT, render(errs, bis, tables, flags, audit))
+	req = request_tables()
+	changed = write_if_changed(OUT, render(errs, bis, tables, flags, audit, req))
 	return [{
 		'file': os.path.relpath(OUT, os.path.dirname(GENERATED_DIR)),
 		'source': 'rogw/tranp/errors.py + except clauses of procedure.py / parser.py / bin/transpile.py + CPython builtins',
@@ -722,5 +842,6 @@ def generate() -> list[dict[str, Any]]:
 		'source_completion_skips_empty': flags['sourceCompletionSkipsEmpty'],
 		'quotation_span_guard': flags['quotationSpanGuard'],
 		'message_str_fallback': flags['messageStrFallback'],
+		'interactive_quit_test': req['interactiveQuitTest'],
 		'changed': changed,
 	}]
